@@ -372,3 +372,63 @@ def run(ck, prog):
     _run_pre_dimension(ck, prog)
     from sa import dimension
     dimension.run_rule(ck, prog, set(DIMENSION_FILES))
+
+
+# ------------------------------------------------------------------ a one-point tree still has something to find
+_run_pre_root = run
+
+
+def root_is_examined(ck, prog):
+    """'Construction and queries succeed for every such input, including ... a single point.' Both queries enumerate candidates
+    only through `children` of the nodes on the cover set (a node's own point is its first child); batch_insert returns a bare
+    leaf - no children - when the point set it is given is empty. So build_cover_tree must not hand an empty point set to
+    batch_insert without a case distinction on it (data.len() / point_set.is_empty()), or a one-point tree has a root that no
+    query ever looks at. Contradiction rule: the leaf/inner distinction made by batch_insert vs the unconditional call."""
+    from sa.match import dim_of
+    rule, inst = "E2-provenance", "build_cover_tree: the root of a one-point tree has itself as a child"
+    CTP = "algorithm::neighbour::cover_tree::CoverTree::<T, F, D>::"
+    bi, bc = prog.bodies.get(CTP + "batch_insert"), prog.bodies.get(CTP + "build_cover_tree")
+    if bi is None or bc is None:
+        ck.violation(rule, inst, CTP + "build_cover_tree", "", expected="anchors exist", found="anchor vanished")
+        return
+    from sa.prov import alts
+    ri = Resolver(bi)
+    bare = [a for a in [ri.local(0)] + list(alts(ri.local(0))) if a[0] == "call" and a[1].endswith("::new_leaf")]
+    rc = Resolver(bc)
+    call = [(bb, t) for bb, t in bc.calls() if t.get("f") and t["f"]["name"] == "batch_insert"]
+    if not bare or not call:
+        ck.ok(rule, inst, bc.path, f"{bc.loc[0]}:{bc.loc[1]}", "batch_insert never returns a bare leaf / is not called here: nothing to distinguish")
+        return
+    bb0 = call[0][0]
+    gated = False
+    for c in BodyCtx.of(bc).cmps:
+        for (L, R) in ((c.lhs, c.rhs), (c.rhs, c.lhs)):
+            d = dim_of(L)
+            if d and d[0] == "len" and R[0] == "int":
+                gated = True
+    for (sw, term, tb, fb) in guards.bool_switches(bc, rc):
+        if term[0] == "call" and term[1].endswith("::is_empty"):
+            gated = True
+    # queries: do they look at a node other than through children? (a direct zero-set push of the root)
+    if gated:
+        ck.ok(rule, inst, bc.path, bc.where(bb0), "build_cover_tree distinguishes the empty point set (one data point) before calling batch_insert")
+    else:
+        ck.violation(rule, inst, bc.path, bc.where(bb0),
+                     expected="a case distinction on data.len() / point_set.is_empty() so that a one-point tree gets a root with a self child",
+                     found="batch_insert returns a bare leaf (no children) for an empty point set and is called unconditionally: with one data "
+                           "point the root has no children, and find / find_radius only ever examine children - the single point is never returned")
+
+
+def run(ck, prog):
+    _run_pre_root(ck, prog)
+    root_is_examined(ck, prog)
+
+
+# ------------------------------------------------------------------ generic: signed counters are not cast to unsigned on their negative side
+_run_pre_negcast = run
+
+
+def run(ck, prog):
+    _run_pre_negcast(ck, prog)
+    from sa import negcast
+    negcast.run_rule(ck, prog, set(DIMENSION_FILES))
